@@ -206,7 +206,26 @@ def run_wsgi(om, errs, ex, raw, B, short=True):
     return obs
 
 
-def judge(mode, obs, payload, fits):
+def lenient_zero(line):
+    """does this size line (without its CRLF) denote the number zero under the most lenient numeric reading?"""
+    try:
+        return int(line.split(b';')[0].strip(), 16) == 0
+    except ValueError:
+        return False
+
+
+def size_lines(sizes, fmt, ext):
+    """(start, end-before-CRLF, index) of every size line of the encoding, the zero-size line included"""
+    out = []
+    pos = 0
+    for k, s in enumerate(list(sizes) + [0]):
+        line = ((fmt % s).encode() if k < len(sizes) else b'0') + ext
+        out.append((pos, pos + len(line), k))
+        pos += len(line) + 2 + (s + 2 if k < len(sizes) else 0)
+    return out
+
+
+def judge(mode, obs, payload, fits, allowed=None):
     """mode: 'legal' | 'must-reject' | 'any'.  Returns None or (class, text)."""
     if obs['hang']:
         return 'hang', 'decoder exceeded the step horizon'
@@ -224,12 +243,17 @@ def judge(mode, obs, payload, fits):
         if not obs['client_error']:
             return 'accepted', f'accepted with body {obs["content"]!r} instead of a client error'
         return None
+    if allowed is not None and not obs['client_error'] and obs['content'] not in allowed:
+        # framing garbage may be accepted, but only with the whole payload, or - when the damaged size line reads as
+        # zero - with the chunks before it: anything else is a partial / shifted body presented as complete
+        return 'partial-accepted', (f'accepted with body {obs["content"]!r}; the payload is {payload!r} and no size line '
+                                    f'reading as zero ends the body there')
     return None
 
 
-def explore_case(res, om, errs, runner, kind, raw, B, mode, payload, fits, case_extra, horizon, short=True):
+def explore_case(res, om, errs, runner, kind, raw, B, mode, payload, fits, case_extra, horizon, short=True, allowed=None):
     memo = res.setdefault('_memo', {})
-    mk = (raw, mode, fits, short)
+    mk = (raw, mode, fits, short, tuple(allowed) if allowed is not None else None)
     if mk in memo:           # the same bytes under the same expectation were already explored in this shard
         res['counters']['deduplicated_cases'] += 1
         return memo[mk]
@@ -243,11 +267,13 @@ def explore_case(res, om, errs, runner, kind, raw, B, mode, payload, fits, case_
             c['short_read_execs'] += 1
         if any(r == 2 and k == 1 for r, k in obs['calls']):
             c['short_crlf_read'] += 1
-        v = judge(mode, obs, payload, fits)
+        v = judge(mode, obs, payload, fits, allowed)
         verdicts.add('client_error' if obs['client_error'] else 'body')
         if v is not None:
             case = {'kind': kind, 'raw': raw, 'B': B, 'mode': mode, 'payload': payload, 'fits': fits,
                     'choices': choices, 'short': short}
+            if allowed is not None:
+                case['allowed'] = list(allowed)
             case.update(case_extra)
             core.add_violation(res, case, f'{case_extra} B={B} raw={raw!r} answers={choices}: {v[1]}',
                                sig=f'{kind}:{mode}:{v[0]}')
@@ -356,8 +382,14 @@ def work(spec):
                 mut = raw[:pos] + sb + raw[pos + 1:]
                 mode = 'must-reject' if pos in after_data else 'any'
                 extra = {'what': 'subst', 'pos': pos, 'byte': sb}
+                allowed = [payload]
+                off = 0
+                for (ls, le, k), s in zip(size_lines(sizes, fmt, ext), list(sizes) + [0]):
+                    if ls <= pos < le and lenient_zero(mut[ls:le]):
+                        allowed.append(payload[:off])
+                    off += s
                 vs = explore_case(res, om, errs, runner, kind, mut, B, mode, payload, fits, extra, horizon,
-                                  short=n < 10)
+                                  short=n < 10, allowed=allowed)
                 if pos in after_data:
                     if vs == {'client_error'}:
                         c['crlf_corruption_rejected'] += 1
@@ -390,7 +422,7 @@ def replay(case):
     raw, B = case['raw'], case['B']
     ex = EnvExplorer(merge=False, horizon=20 * (len(raw) + 5))
     obs = ex.replay(lambda e: runner(om, errs, e, raw, B, case.get('short', True)), case['choices'])
-    v = judge(case['mode'], obs, case['payload'], case['fits'])
+    v = judge(case['mode'], obs, case['payload'], case['fits'], case.get('allowed'))
     if v is None:
         return None
     return (f'{case["kind"]}: chunked body {raw!r} ({case["what"]}) with max_memfile_size={B}, reads '
